@@ -166,12 +166,59 @@ def h_raman_eligibility(ctx, table):
         ctx.prove('booster after a ROADM never Raman', not eqpt['Edfa'][by[f'booster {u}{v}'].params.type_variety].raman)
 
 
+def h_multiband_preselect(ctx):
+    """preselect_multiband_amps on an untyped two-band amplifier: a library with a quiet group (gain_flatmax 20 dB) and a large
+    one (gain_flatmax 30 dB); symbolic loss of the preceding span (the same in both bands): the quiet group stays eligible
+    whenever it can deliver the gain within the extended-gain allowance and the power"""
+    import json as _json
+    from pathlib import Path
+    from gnpy.core import elements as el_mod
+    from gnpy.core.parameters import EdfaParams
+    from gnpy.core.network import preselect_multiband_amps
+    from gnpy.tools.json_io import _equipment_from_json, DEFAULT_EXTRA_CONFIG
+    C_BAND, L_BAND = {'f_min': 191.25e12, 'f_max': 196.15e12}, {'f_min': 186.55e12, 'f_max': 190.05e12}
+    data = _json.loads((Path(common.EXAMPLE) / 'eqpt_config_multiband.json').read_text())
+
+    def amp(name, band, flatmax, nf0):
+        return {'type_variety': name, 'type_def': 'fixed_gain', 'gain_flatmax': flatmax, 'gain_min': 12, 'p_max': 23, 'nf0': nf0,
+                'out_voa_auto': False, 'allowed_for_design': False, **band}
+    data['Edfa'] = [amp('quiet_C', C_BAND, 20, 5.0), amp('quiet_L', L_BAND, 20, 5.0), amp('large_C', C_BAND, 30, 7.0),
+                    amp('large_L', L_BAND, 30, 7.0),
+                    {'type_variety': 'mb_quiet', 'type_def': 'multi_band', 'amplifiers': ['quiet_C', 'quiet_L'], 'allowed_for_design': True},
+                    {'type_variety': 'mb_large', 'type_def': 'multi_band', 'amplifiers': ['large_C', 'large_L'], 'allowed_for_design': True}]
+    eqpt = _equipment_from_json(data, DEFAULT_EXTRA_CONFIG)
+    ext = eqpt['Span']['default'].target_extended_gain
+    fib = {'uid': 'fiber', 'type': 'Fiber', 'type_variety': 'SSMF', 'params': {'length': 80, 'length_units': 'km', 'loss_coef': 0.2,
+                                                                              'con_in': 0, 'con_out': 0, 'att_in': 0}}
+    g, by = build_elements([{'uid': 'roadm A', 'type': 'Roadm'}, fib, {'uid': 'roadm B', 'type': 'Roadm'}], eqpt,
+                           connections=[{'from_node': 'roadm A', 'to_node': 'fiber'}, {'from_node': 'fiber', 'to_node': 'roadm B'}])
+    loss = ctx.real('span_loss_db', lo=13, hi=35)
+    by['fiber'].design_span_loss = loss
+    bands = {'CBAND': {'f_min': 191.3e12, 'f_max': 196.1e12}, 'LBAND': {'f_min': 186.6e12, 'f_max': 190.0e12}}
+    amps = {b: el_mod.Edfa(params=EdfaParams.default_values, uid='mbamp') for b in bands}
+    ptot = ctx.real('design_total_power_dbm', lo=10, hi=22.9)
+    zero = {b: 0 for b in bands}
+    got = preselect_multiband_amps('mbamp', amps, by['fiber'], by['roadm B'], True, dict(zero), dict(zero), {b: ptot for b in bands}, g, eqpt,
+                                   ['mb_quiet', 'mb_large'], bands, dict(zero), dict(zero))
+    info = dict(eligible=sorted(got), extended_gain=ext)
+    # required gain = span loss (offset 0 before a ROADM), required power = total design power (< p_max of every model)
+    quiet_ok = bool(loss < 20 + ext) and bool(loss + 3 > 12)
+    large_ok = bool(loss < 30 + ext)
+    if quiet_ok:
+        ctx.prove('the quiet group stays eligible while it delivers the gain within the extended-gain allowance',
+                  'quiet_C' in got and 'quiet_L' in got, info=info)
+    if large_ok:
+        ctx.prove('the large group stays eligible while it delivers the gain', 'large_C' in got and 'large_L' in got, info=info)
+    ctx.prove('only library models of the permitted groups are proposed', set(got) <= {'quiet_C', 'quiet_L', 'large_C', 'large_L'}, info=info)
+
+
 def jobs(tier):
     js = []
     for lib in LIBS:
         for ra in ((True, False) if lib == 'with_raman' else (False,)):
             js.append(dict(name=f'H10a:select_edfa:{lib}:raman_allowed={ra}', fn='h_select', params=dict(lib=lib, raman_allowed=ra),
                            budget_s=150 if tier == 'quick' else 600, witness_every=3, cost=500))
+    js.append(dict(name='H10d:multiband_preselection', fn='h_multiband_preselect', cost=50))
     js.append(dict(name='H10b:get_node_restrictions', fn='h_restrictions', witness_every=5, cost=100))
     for t in LOSS_TABLES:
         js.append(dict(name=f'H10c:raman_eligibility:{t}', fn='h_raman_eligibility', params=dict(table=t), cost=50))
